@@ -17,7 +17,7 @@ func propC02() Property {
 		ID: "C02",
 		Explanation: "Lockset and shape rules over every function of the module. R1: reading the next outbound number that is stamped into tag 34, persisting/incrementing it, every store to the send queue and every send on the connection channel execute with session.sendMutex held (entry requirements propagated to all callers, roots must satisfy them), and numbering→enqueue happens in ONE critical section. " +
 			"R2: the stamped number is the number read (re-read after a store reset), the persisted number/bytes are the stamped number and the built bytes, the persist error is returned, persist does exactly one of save+incr / incr. R3: bytes are enqueued iff numbering+persist succeeded. R4: the queue is only appended to, truncated to empty, or cut at the index whose send failed; what is sent is the queue's own element in iteration order. " +
-			"R5: first-time numbering holds resendMutex(R) (or is the Logon/Logout drop-and-send confined to the session goroutine), the replay loop holds resendMutex(W) across IterateMessages, resendMutex is never taken while sendMutex is held and never re-taken inside the W region. R6: the application-side send API only queues: it reaches no channel send and does not read the session state.",
+			"R5: first-time numbering holds resendMutex(R) (or is the Logon/Logout drop-and-send confined to the session goroutine), the replay loop holds resendMutex(W) across IterateMessages, resendMutex is never taken while sendMutex is held and never re-taken inside the W region. R6: the application-side send API only queues: it reaches no channel send and does not read the session state. R7: where a function both empties the send queue and resets the store, the two happen under one acquisition of sendMutex with no release in between. R8 (shared with C16): in every store, save-and-increment saves first and increments only on the nil-error edge, or is one transaction — so the bytes are retrievable under n before n counts as used.",
 		NotDecided: "atomicity of the store implementation itself (C16/C17), fairness (that every number is eventually transmitted), data races on other fields. Observations (not verdicts): store.Reset in the Logon path runs without sendMutex; exported ResetSession touches state from a foreign goroutine.",
 		Rules: []RuleDef{
 			{ID: "C02-R1", Desc: "number→stamp→persist→enqueue→send under sendMutex, one section", Min: 8, Run: c02R1},
@@ -26,6 +26,8 @@ func propC02() Property {
 			{ID: "C02-R4", Desc: "FIFO queue shape", Min: 5, Run: c02R4},
 			{ID: "C02-R5", Desc: "resend lock protocol and lock order", Min: 5, Run: c02R5},
 			{ID: "C02-R6", Desc: "application send API is queue-only", Min: 2, Run: c02R6},
+			{ID: "C02-R7", Desc: "queue drop and store reset are one critical section", Min: 1, Run: c02R7},
+			{ID: "C02-R8", Desc: "every store: save-and-increment = save (nil) then increment, or one transaction (= C16-R6)", Min: 4, Run: c16R6},
 		},
 	}
 }
@@ -810,4 +812,59 @@ func isAscendingIndex(o *Org) bool {
 		return zero && inc
 	}
 	return false
+}
+
+// C02-R7: emptying the send queue and resetting the store are one critical section. A sender
+// admitted between the two is numbered in the old epoch, its bytes are wiped by the reset, and
+// it is transmitted in the new epoch under a number the store does not hold.
+func c02R7(c *Ctx) {
+	p := c.P
+	r := getRoles(p)
+	// queue droppers: functions that store toSend[:0] (or nil) into the queue
+	dropper := map[*ssa.Function]bool{}
+	for _, st := range p.FieldStores(r.fToSend) {
+		vo := p.Origin(st.Store.Val)
+		if vo.IsNil() || vo.Kind == "slice" && vo.Y != nil && vo.Y.IsConstInt(0) {
+			dropper[st.Fn] = true
+		}
+	}
+	n := 0
+	for _, fn := range p.FuncsIn(modPath) {
+		var drops []ssa.Instruction
+		ForEachInstr(fn, func(in ssa.Instruction) {
+			if cl, ok := in.(ssa.CallInstruction); ok {
+				if cal := cl.Common().StaticCallee(); cal != nil && dropper[cal] {
+					drops = append(drops, in)
+				}
+			}
+			if st, ok := in.(*ssa.Store); ok && dropper[fn] && fieldAddrOf(st.Addr, r.fToSend) != nil {
+				vo := p.Origin(st.Val)
+				if vo.IsNil() || vo.Kind == "slice" && vo.Y != nil && vo.Y.IsConstInt(0) {
+					drops = append(drops, in)
+				}
+			}
+		})
+		resets := r.storeCalls(fn, "Reset")
+		if len(drops) == 0 || len(resets) == 0 {
+			continue
+		}
+		lf := p.Locks(fn)
+		for _, d := range drops {
+			for _, rs := range resets {
+				n++
+				a := sitesOf(lf.HeldSitesAt(d), sendMu)
+				b := sitesOf(lf.HeldSitesAt(rs), sendMu)
+				first, second := d, ssa.Instruction(rs)
+				if InstrDominates(second, first) {
+					first, second = second, first
+				}
+				same := len(a) > 0 && fmt.Sprint(a) == fmt.Sprint(b) && !unlockBetween(p, first, second, sendMu)
+				c.Check(same, FuncName(fn), p.InstrPos(rs), "drop-and-reset-one-section", "queue drop and store reset under one acquisition of "+sendMu,
+					fmt.Sprintf("the send queue is emptied with %s held at %v but the store is reset with it held at %v (or released in between): a sender admitted between the two is numbered in the old epoch, its stored bytes are wiped by the reset, and it reaches the wire in the new epoch under a number the store does not hold", sendMu, a, b))
+			}
+		}
+	}
+	if n == 0 {
+		c.Violation("", "-", "no-drop-and-reset", "no function both empties the send queue and resets the store (the drop-and-reset role was not found)")
+	}
 }
